@@ -39,7 +39,7 @@ def judge_group(ctx, group, impl, elements, single=None, res=None):
     for n, v in elements:
         agg[n] = agg.get(n, Fraction(0)) + v
     want_leaves = sorted((n, canon_num(spec.fmt_fixed(v, 2))) for n, v in agg.items())
-    nopref = spec.no_prefix(names) and all(b'' not in n.split(b'/') for n in names)
+    nopref = spec.no_prefix(names)
     parsed = {}
     for mode, c in group.items():
         i = impl[c.id]
@@ -89,6 +89,20 @@ def run(ctx):
             count += 1
             if ctx.tier == 'quick' and k == 4 and count % 3:
                 continue
+            ents = [(p, Qty(str(2 ** j).encode(), Fraction(2 ** j))) for j, p in enumerate(subset)]
+            log = [(__import__('datetime').date(2021, 1, 24), ents, [])]
+            files = {b'food.yaml': b'', b'log.yaml': g.render_log(log, varied=False)}
+            grp = {}
+            for mode, s in MODES:
+                c = app(['bal'], files, s=s, kind=mode)
+                grp[mode] = c
+                cases.append(c)
+            groups.append((grp, elements_of(log), None, subset))
+    # the same with empty path components (`a/`, `/a`, `a//a`, `/`): a component like any other
+    paths2 = [b'/'.join(p) for k in (1, 2, 3) for p in itertools.product([b'a', b''], repeat=k)]
+    paths2 = [p for p in paths2 if G.wf_name(p) and b'' in p.split(b'/')]
+    for k in range(1, 3 if ctx.tier == 'quick' else 4):
+        for subset in itertools.combinations(paths2 + [b'a', b'a/a'], k):
             ents = [(p, Qty(str(2 ** j).encode(), Fraction(2 ** j))) for j, p in enumerate(subset)]
             log = [(__import__('datetime').date(2021, 1, 24), ents, [])]
             files = {b'food.yaml': b'', b'log.yaml': g.render_log(log, varied=False)}
